@@ -232,6 +232,11 @@ def clamp_rows(check, repo, ids):
 def run(check, ctx):
     repo = ctx.repo
     ids = curve_ids(repo)
+    # on-curve test in C: the two sides of the curve equation are compared in full
+    from .. import crules
+    n = crules.whole_array_compare(check, ctx.cdb, "src/ed25519.c", "ed25519_new_point", rule="D")
+    if n < 1:
+        raise AnalysisError("anchor vanished: memcmp of the curve equation in ed25519_new_point")
     rsa_generate_filters(check, repo)
     for r in ecc_rows(repo, ids):
         run_row(check, repo, r)
